@@ -4,6 +4,9 @@ CS = 'optiland/coordinate_system.py'
 PR = 'optiland/rays/paraxial_rays.py'
 GB = 'optiland/geometries/base.py'
 
+from py2coq_c04 import LaunchKernel
+PX = 'optiland/paraxial.py'
+
 MODULE_DEPS = {'Paraxial': ['RealRays']}
 MODULES = {
     'Paraxial': [
@@ -31,5 +34,13 @@ MODULES = {
              opaque_calls={'self.material_pre.n': 'num', 'self.material_post.n': 'num'},
              ignore_calls=['self.reset', 'self._record'],
              outputs=['rays.y', 'rays.u', 'rays.z', 'rays.x']),
+    ],
+    # the LAUNCH of the marginal ray as Paraxial.marginal_ray computes it (height, slope, start plane, wavelength =
+    # the arguments of its final `return self._trace_generic(...)`); EPD() and EPL() are inputs
+    'ParaxLaunch': [
+        dict(name='px_marginal_launch', file=PX, cls='Paraxial', func='marginal_ray', kclass=LaunchKernel,
+             types={'self.optic.object_surface.is_infinite': 'bool', 'self.surfaces.positions': 'list'},
+             opaque_calls={'self.EPD': 'num', 'self.EPL': 'num'},
+             return_args_of=['self._trace_generic']),
     ],
 }
